@@ -1,21 +1,23 @@
 #!/usr/bin/env python3
 """Regenerates the .cfg files of spec/ClientConn (run by hand; the files are committed)."""
 INV = "TypeOK Sync CanMakeCallsConsistent ServedByLive UnavailOnlyIfEmpty Resumable NoStaleReady"
-def design(name, n, sess, rpc, inlock="TRUE", invs=INV, wedged=1):
-    open(name + ".cfg", "w").write("SPECIFICATION Spec\nCONSTANTS\n  N = %d\n  MaxSess = %d\n  MaxRpc = %d\n  InLock = %s\n  MaxWedged = %d\nINVARIANTS %s\nCHECK_DEADLOCK FALSE\n"
-                                   % (n, sess, rpc, inlock, wedged, invs))
-def sim(name, n, sess, rpc, depth, burst=1, wedged=0, hold=0, sick=0):
-    open(name + ".cfg", "w").write("INIT SimInit\nNEXT SimNext\nCONSTANTS\n  N = %d\n  MaxSess = %d\n  MaxRpc = %d\n  InLock = TRUE\n  MaxWedged = %d\n  MaxBurst = %d\n  MaxHold = %d\n  MaxSick = %d\n  Depth = %d\nCHECK_DEADLOCK FALSE\n"
-                                   % (n, sess, rpc, wedged, burst, hold, sick, depth))
+def design(name, n, sess, rpc, inlock="TRUE", invs=INV, wedged=1, reset="TRUE"):
+    open(name + ".cfg", "w").write("SPECIFICATION Spec\nCONSTANTS\n  N = %d\n  MaxSess = %d\n  MaxRpc = %d\n  InLock = %s\n  MaxWedged = %d\n  AllowReset = %s\nINVARIANTS %s\nCHECK_DEADLOCK FALSE\n"
+                                   % (n, sess, rpc, inlock, wedged, reset, invs))
+def sim(name, n, sess, rpc, depth, burst=1, wedged=0, hold=0, sick=0, reset=0):
+    open(name + ".cfg", "w").write("INIT SimInit\nNEXT SimNext\nCONSTANTS\n  N = %d\n  MaxSess = %d\n  MaxRpc = %d\n  InLock = TRUE\n  MaxWedged = %d\n  MaxBurst = %d\n  MaxHold = %d\n  MaxSick = %d\n  MaxReset = %d\n  AllowReset = TRUE\n  Depth = %d\nCHECK_DEADLOCK FALSE\n"
+                                   % (n, sess, rpc, wedged, burst, hold, sick, reset, depth))
 design("cc_lock2", 2, 3, 2)
 design("cc_lock3", 3, 4, 2)
-design("cc_lock3_t", 3, 5, 3, wedged=0)
+design("cc_lock3_t", 3, 5, 3, wedged=0, reset="FALSE")
 # vacuity: with the listener outside the table lock the same invariants break
 design("cc_nolock_sync", 2, 3, 1, "FALSE", "Sync")
 design("cc_nolock_unavail", 2, 3, 1, "FALSE", "UnavailOnlyIfEmpty")
 design("cc_nolock_cmc", 2, 3, 1, "FALSE", "CanMakeCallsConsistent")
-sim("bfs_c1", 1, 3, 1, 10, 2, sick=1)
-sim("sim_c2", 2, 6, 3, 20, 4, wedged=1, hold=2, sick=2)
-sim("sim_c3", 3, 8, 3, 26, 4, wedged=1, hold=2, sick=2)
+sim("bfs_c1", 1, 3, 1, 10, 2, sick=1, reset=1)
+sim("sim_c2", 2, 6, 3, 22, 4, wedged=1, hold=2, sick=2, reset=2)
+sim("sim_c3", 3, 8, 3, 28, 4, wedged=1, hold=2, sick=2, reset=2)
 # exhaustive: two slots, a wedged session and a held add (kill another session while the add's notification is parked)
 sim("bfs_c2w", 2, 3, 1, 8, 1, wedged=1, hold=1)
+# exhaustive: one slot, transport resets of the live session between calls
+sim("bfs_c1r", 1, 2, 1, 9, 2, reset=2)
